@@ -294,7 +294,8 @@ def binop(op, a, b):
             return SV(z3.URem(a.t, b.t), 0, cb - 1)
         dlo, dhi = max(a.lo, 0) // cb, max(a.hi, 0) // cb
         if _facts is not None and not _revealing:
-            return opaque('DIV%d' % cb, a, dlo, dhi, lambda x, cb=cb, dlo=dlo, dhi=dhi: SV(z3.UDiv(x.t, bvv(cb)), dlo, dhi))
+            return opaque('DIV%d' % cb, a, dlo, dhi, lambda x, cb=cb, dlo=dlo, dhi=dhi: SV(z3.UDiv(x.t, bvv(cb)), dlo, dhi),
+                          lambda x, app, cb=cb: [and_(cmpop('<=', app * cb, x), cmpop('<', x, app * cb + cb))] if 0 <= x.lo and x.hi <= (1 << (W - 3)) else [])
         return SV(z3.UDiv(a.t, b.t), dlo, dhi)
     if op == '&':
         t = a.t & b.t
